@@ -71,7 +71,11 @@ def build_harness():
         return
     env = {"CARGO_NET_OFFLINE": "true"}
     if REPO != "/repo":
-        raise ToolError("harness has a path dependency on /repo")
+        # background sweeps run against a snapshot of the repository: point the path dependency there
+        ct = os.path.join(HARNESS, "Cargo.toml")
+        t = open(ct).read()
+        if 'path = "/repo"' in t:
+            open(ct, "w").write(t.replace('path = "/repo"', 'path = "%s"' % REPO))
     p = run(["cargo", "build", "--release", "--offline"], cwd=HARNESS, env=env, timeout=1800)
     if not os.path.exists(PFV):
         raise ToolError("harness binary missing after build")
